@@ -411,4 +411,52 @@ theorem Reenc.append_left (ps : List PU) {us us' : List PU} (h : Reenc us us') :
   | nil => exact h
   | cons p rest ih => exact .keep p ih
 
+/-! ### no `?` in an escaped path (the request target written by the proxy splits at the first `?`) -/
+
+theorem qmark_not_valid : validPathChar '?' = false := by decide
+
+theorem no_qmark_of_validEncoded (s : List Char) (h : validEncodedL s = true) : '?' ∉ s := by
+  intro hm
+  have := List.all_eq_true.mp h '?' hm
+  rw [qmark_not_valid] at this
+  cases this
+
+theorem escapedPathL_no_qmark (path raw : List Char) : '?' ∉ escapedPathL path raw := by
+  unfold escapedPathL
+  split
+  · rename_i h
+    simp only [Bool.and_eq_true] at h
+    exact no_qmark_of_validEncoded raw h.1.2
+  · split
+    · simp
+    · rw [escapePathL_eq]
+      exact no_qmark_of_validEncoded _ (validEncodedL_render _ (escUnits_sendable path))
+
+/-- the path the rule computes for the upstream never contains a `?` -/
+theorem upstreamPath_no_qmark (esh : SlashHandling) (rw : Option RewriteCfg) (q : ReqView) :
+    '?' ∉ upstreamPath esh rw q := by
+  unfold upstreamPath
+  cases rw with
+  | none => exact escapedPathL_no_qmark _ _
+  | some r => exact escapedPathL_no_qmark _ _
+
+theorem takeWhile_no_qmark (p rest : List Char) (h : '?' ∉ p) :
+    (p ++ '?' :: rest).takeWhile (· ≠ '?') = p := by
+  induction p with
+  | nil => simp
+  | cons c t ih =>
+    have hc : c ≠ '?' := fun e => h (e ▸ List.mem_cons_self ..)
+    have ht : '?' ∉ t := fun hm => h (List.mem_cons_of_mem _ hm)
+    have hd : decide (c ≠ '?') = true := by simp [hc]
+    simp only [List.cons_append, List.takeWhile_cons, hd, if_true, ih ht]
+
+theorem takeWhile_no_qmark_all (p : List Char) (h : '?' ∉ p) : p.takeWhile (· ≠ '?') = p := by
+  induction p with
+  | nil => rfl
+  | cons c t ih =>
+    have hc : c ≠ '?' := fun e => h (e ▸ List.mem_cons_self ..)
+    have ht : '?' ∉ t := fun hm => h (List.mem_cons_of_mem _ hm)
+    have hd : decide (c ≠ '?') = true := by simp [hc]
+    simp only [List.cons_append, List.takeWhile_cons, hd, if_true, ih ht]
+
 end Heimdall
